@@ -4,7 +4,7 @@
     Trees may be conflicted (any odd number of terms); "the value of X at p" is the list
     of the terms' values, compared through its net counts [den]. *)
 From Verif Require Import Base.Prelude Model.Merge Model.TreeMerge Model.TreeCase Model.Rebase Model.C08.
-From Verif Require Import Proofs.TreeValue Proofs.TreeMerge Proofs.C07 Proofs.C08 Proofs.MergeIdentities.
+From Verif Require Import Proofs.TreeValue Proofs.TreeMerge Proofs.C07 Proofs.C08 Proofs.MergeIdentities Proofs.ThereBack.
 Local Open Scope Z_scope.
 
 Section Statements.
@@ -71,6 +71,21 @@ Section Statements.
     rebase_tree accept content_merge [b'] b b = [b'].
   Proof. intros b' b Hb. exact (proj1 (base_identity_general accept content_merge b' b Hb)). Qed.
 
+  (** When a commit's changes ([b] -> [t]) and the parent change ([b] -> [b']) touch disjoint
+      entries — at every name, at every directory level, one of the two left the entry alone
+      or both changed a directory in recursively disjoint ways — rebasing the commit from
+      [b] onto [b'] and back onto [b] restores its tree exactly. [wf_tree]: names strictly
+      ascending and no empty directory at every level (what backends store). *)
+  Theorem C08_there_and_back : forall b' b t : tree,
+    wf_tree b -> wf_tree t -> Disj accept b' b t ->
+    rebase_tree accept content_merge [b] [b'] (rebase_tree accept content_merge [b'] [b] [t]) = [t].
+  Proof. exact (there_and_back accept content_merge). Qed.
+  (** ... in the executable form the checker applies to the implementation's trees. *)
+  Theorem C08_there_and_back_checked : forall b' b t : tree,
+    back_applies accept b b' t = true ->
+    rebase_tree accept content_merge [b] [b'] (rebase_tree accept content_merge [b'] [b] [t]) = [t].
+  Proof. exact (there_and_back_b accept content_merge). Qed.
+
   (** find_recursive_merge_commits terminates: if several greatest common ancestors always
       lie strictly below the commit they were computed for (a fact of the commit graph),
       fuel above the largest position involved is enough. *)
@@ -109,7 +124,7 @@ Theorem C08_okb_spec : forall c : case,
     if same_parent_trees c then rt = ot /\ backt = ot
     else (forall p vs, In (p, vs) (dec_values c) -> p <> [] ->
                        law_P (c_accept c) (map (dec tab) (c_unresolved c)) nbt obt ot p vs)
-         /\ back_P nbt obt ot backt (dec_values c).
+         /\ back_P (c_accept c) nbt obt ot backt.
 Proof. exact okb_spec. Qed.
 
 Check C08_unchanged_paths : forall accept content_merge (nb ob ot : list tree),
@@ -131,8 +146,11 @@ Example C08_nonvacuous :
   /\ r = [[(0, nvf 2); (1, nvf 6); (2, Tree [(0, nvf 8); (1, nvf 9)])]%N]
   /\ rebase_tree true (fun _ => None) [nv_b] [nv_b'] r = [nv_t].
 Proof. vm_compute. repeat split. Qed.
+Example C08_there_and_back_nonvacuous : back_applies true nv_b nv_b' nv_t = true.
+Proof. reflexivity. Qed.
 
 Print Assumptions C08_same_parents.
+Print Assumptions C08_there_and_back.
 Print Assumptions C08_equal_bases_general.
 Print Assumptions C08_unchanged_paths.
 Print Assumptions C08_agreeing_parents.
